@@ -82,9 +82,7 @@ class Lit(Node):
             s = repr(float(self.value))
             if "e" in s or "inf" in s or "nan" in s:
                 raise ValueError("float literal not printable in plain notation")
-            assert self.value >= 0, "negative literals are written as (0 - k)"
-            return s
-        assert self.value >= 0, "negative literals are written as (0 - k)"
+            return s          # a negative literal is one token (the lexer folds the sign); generators write (0 - k) where an operand precedes
         return str(int(self.value))
 
 
